@@ -42,9 +42,11 @@ def run(ctx):
                 continue
             n_expr += 1
             A = arms(ctx, f)
-            if ty in FORWARDERS:
+            switches = any(k for k, d, e in A)
+            if ty in FORWARDERS or not switches:
+                # a wrapper: forwards the node unchanged to another type's from_expr on every path
                 rs = [e for _, _, e in A]
-                ok = len(rs) == 1 and re.search(r"FromMeta(>)?::from_expr\(a1\)", rs[0]) is not None
+                ok = bool(rs) and all(re.search(r"FromMeta(>)?::from_expr\(a1\)", r) is not None for r in rs)
                 ctx.ob("C13.F.from-expr-forwards", f.key, "forwards the node unchanged", ok, "returns %s" % [r[:120] for r in rs])
                 continue
             grp = [e for k, d, e in A if k == ["discr(a1)=Group"]]
